@@ -100,8 +100,8 @@ def inStr : InOut → String
   | .ignore => "ignore"
   | .demobilize => "demobilize"
   | .panic => "panic"
-  | .accepted u m _ =>
-    s!"acc us={boolStr u} m={hex64 m.sendTs},{hex64 m.srvRecvTs},{hex64 m.srvXmitTs},{hex64 m.recvTs},{m.rootDelay},{m.rootDisp},{m.leap},{m.precision}"
+  | .accepted u m k =>
+    s!"acc ord={callsOrd (InOut.accepted u m k).calls} us={boolStr u} m={hex64 m.sendTs},{hex64 m.srvRecvTs},{hex64 m.srvXmitTs},{hex64 m.recvTs},{m.rootDelay},{m.rootDisp},{m.leap},{m.precision}"
 
 def acceptStr : Except AcceptErr Unit → String
   | .ok _ => "ok"
